@@ -29,6 +29,8 @@ TABLES = {
     "mixed": [("anon", None, None, "/"), ("u1", "u1", None, "/"), ("u2", "u2", "pw2", "/d")],
     "noanon": [("u1", "u1", None, "/"), ("u2", "u2", "pw2", "/d")],
     "twopw": [("anon", None, None, "/"), ("u2", "u2", "pw2", "/d"), ("u3", "u3", "pw3", "/")],
+    # u4's password is the empty string: it *has* a password (USER -> 331, only 'PASS' with an empty argument logs in)
+    "emptypw": [("anon", None, None, "/"), ("u4", "u4", "", "/"), ("u2", "u2", "pw2", "/d")],
 }
 MANAGERS = ("memory", "slow", "digest")
 VERB_ARGS = [("PWD", ""), ("CWD", "d"), ("CDUP", ""), ("MKD", "newdir"), ("RMD", "d/e"), ("DELE", "f"), ("RNFR", "f"), ("RNTO", "f2"), ("MLST", "f"), ("MLSD", ""), ("LIST", ""), ("RETR", "f"), ("STOR", "up"), ("APPE", "f"), ("TYPE", "I"), ("PBSZ", "0"), ("PROT", "P"), ("PASV", ""), ("EPSV", ""), ("ABOR", ""), ("REST", "3"), ("SYST", ""), ("NOOP", ""), ("SITE", "x")]
@@ -65,11 +67,25 @@ def core_cases(seed):
                 for mgr in MANAGERS:
                     out.append({"seed": seed * 10000 + i, "table": table, "ops": ops, "core": f"{table}/{pname}/{v}", "manager": mgr})
                     i += 1
+    empties = {
+        "pending-emptypw": [["USER", "u4"]],
+        "wrongpass-emptypw": [["USER", "u4"], ["PASS", "x"]],
+        "logged-emptypw": [["USER", "u4"], ["PASS", ""]],
+        "logged-then-pending-emptypw": [["USER", "anonymous"], ["USER", "u4"]],
+    }
+    for pname, pre in empties.items():
+        for (v, a) in VERB_ARGS:
+            ops = [list(x) for x in pre] + [[v, a, {"connect": "before"}] if v in M.TRANSFER else [v, a]] + [["PWD", ""]]
+            if v == "RNTO":
+                ops = [list(x) for x in pre] + [["RNFR", "f"], ["RNTO", a], ["PWD", ""]]
+            for mgr in MANAGERS:
+                out.append({"seed": seed * 10000 + i, "table": "emptypw", "ops": ops, "core": f"emptypw/{pname}/{v}", "manager": mgr})
+                i += 1
     return out
 
 
 def gen_history(rnd, table):
-    names = ["anonymous", "u1", "u2", "u3", "ghost", ""]
+    names = ["anonymous", "u1", "u2", "u3", "u4", "ghost", ""]
     ops = []
     n = rnd.choice([3, 6, 10, 16, 25])
     while len(ops) < n:
@@ -162,7 +178,7 @@ def run_pending_case(case):
 
 def gen_burst(rnd, table):
     logins = [login for (tag, login, pw, home) in TABLES[table] if tag != "anon"] + ["anonymous", "ghost"]
-    pws = [pw for (tag, login, pw, home) in TABLES[table] if pw] + ["bad"]
+    pws = [pw for (tag, login, pw, home) in TABLES[table] if pw is not None] + ["bad"]
     pre = rnd.choice([[], [], [["USER", rnd.choice(logins)]], [["USER", "u2"], ["PASS", "pw2"]]])
     burst = []
     for _ in range(rnd.randint(2, 6)):
@@ -330,8 +346,8 @@ def run_case(case):
                 holders.append(h)
                 await h.connect()
                 await h.cmd("USER " + name)
-                if pwof.get(name):
-                    await h.cmd("PASS " + pwof[name])
+                if pwof.get(name) is not None:
+                    await h.cmd(("PASS " + pwof[name]).strip())
             ops = []
             for o in case["ops"]:
                 o = tuple(o)
